@@ -295,15 +295,23 @@ fn check_path(rep: &mut Report, s: &str, prior: Option<&str>) {
     match res {
         Err(p) => rep.violation(&p.sig(), p.text(), wit),
         Ok((path, vec, raw, query, wire_raw)) => {
+            // what the property pins: the getter returns the string that was set (minus one leading
+            // '/'), and getter, vector view, raw options and wire all show the SAME segments, whose
+            // '/'-join is that string.  Whether "" is stored as no segment or as one empty segment is
+            // not pinned (the reference segmentation is only reported as an observation).
+            let raw_strings: Vec<String> = raw.iter().map(|x| String::from_utf8_lossy(x).to_string()).collect();
+            if raw == want_raw {
+                rep.count("paths_stored_with_reference_segmentation");
+            }
             if path != t {
                 rep.violation("path-roundtrip", format!("get_path() = {:?}, want {:?}", path, t), wit);
-            } else if raw != want_raw {
-                rep.violation("path-raw-segments", format!("Uri-Path values {:?}, want {:?}", raw.iter().map(|x| String::from_utf8_lossy(x).to_string()).collect::<Vec<_>>(), want_vec), wit);
-            } else if vec != Ok(want_vec.clone()) {
-                rep.violation("path-as-vec", format!("get_path_as_vec() = {:?}, want {:?}", vec, want_vec), wit);
+            } else if raw_strings.join("/") != t || raw.iter().any(|x| std::str::from_utf8(x).is_err()) {
+                rep.violation("path-raw-segments", format!("Uri-Path values {:?} do not spell {:?} (reference segmentation {:?})", raw_strings, t, want_vec), wit);
+            } else if vec != Ok(raw_strings.clone()) {
+                rep.violation("path-as-vec", format!("get_path_as_vec() = {:?}, raw Uri-Path values {:?}", vec, raw_strings), wit);
             } else if query != Some(1) {
                 rep.violation("path-setter-touched-other-option", format!("Uri-Query count {:?}", query), wit);
-            } else if wire_raw != Some(want_raw.clone()) {
+            } else if wire_raw != Some(raw.clone()) {
                 rep.violation("path-on-wire", format!("decoded Uri-Path {:?}", wire_raw), wit);
             } else {
                 rep.count("paths_checked");
